@@ -260,6 +260,14 @@ class Probe:
                 continue
             if isinstance(codec, nm.Length) and not isinstance(codec, nm.Consumed):
                 lengths.append((codec.order, leaf, codec))
+            # the codec the map assigns must be a reading of the kind the C++ compiler reports
+            ok_kinds = codec.cxx_kinds() + ((mm.accept_kind,) if (mm is not None and mm.accept_kind) else ())
+            if leaf['elem_kind'] not in ok_kinds:
+                self.violation(s, leaf['path'], 'kind',
+                               'the C++ compiler classifies the member as %s (%d bytes per element) but the Python side reads it as %s'
+                               % (leaf['elem_kind'], leaf['elem_size'], codec.describe()),
+                               {'cxx_member': {k: leaf[k] for k in ('path', 'offset', 'size', 'kind', 'elem_kind', 'elem_size', 'tname')},
+                                'python_attribute': attr, 'python_codec': codec.describe()})
             for (ei, off, w, suffix) in elements(leaf, codec, mm):
                 units.append({'leaf': leaf, 'li': li, 'ei': ei, 'off': off, 'w': w, 'attr': attr + suffix, 'codec': codec,
                               'mm': mm, 'name': leaf['path'] + ('[%d]' % ei if ei is not None else '')})
@@ -430,7 +438,7 @@ class Probe:
                                    'writing bytes [%d,%d) (C++ member %s) changed Python attribute(s) %s; expected only %s'
                                    % (off, off + w, u['name'], outside[:6], u['attr']), replay)
                 elif got_err is not None or not codec.same(got, exp):
-                    self.violation(s, u['name'], 'value' if changed or p == base_raw else 'offset-or-width',
+                    self.violation(s, u['name'], 'value' if changed or p == base_raw else 'not-read',
                                    'bytes %s at [%d,%d) denote %r under kind %s; Python attribute %s is %s%s'
                                    % (p.hex(), off, off + w, exp, codec.describe(), u['attr'], replay['observed_value'],
                                       '' if changed or p == base_raw else ' (no attribute changed at all)'), replay)
@@ -494,7 +502,7 @@ class Probe:
                            'setting Python attribute %s changed byte(s) %s of the encoding; the C++ member %s occupies [%d,%d)'
                            % (u['attr'], outside[:8], u['name'], off, off + w), replay)
         elif f2[off:off + w] != p:
-            self.violation(s, u['name'], 'value' if diff or p == f1[off:off + w] else 'offset-or-width',
+            self.violation(s, u['name'], 'value' if diff or p == f1[off:off + w] else 'not-written',
                            'setting %s = %r wrote %s at [%d,%d); the C++ encoding of that value is %s%s'
                            % (u['attr'], exp, f2[off:off + w].hex(), off, off + w, p.hex(),
                               '' if diff else ' (no byte changed at all)'), replay)
